@@ -290,6 +290,9 @@ def special_units():
     us.append(Unit([("struct", "S", [("v", ("b", "int"), None), ("w", ("b", "char"), None)])], None, ("g", ("a", ("s", "S"), 3)), tag="var/array"))
     us.append(Unit([("union", "S", [("i", ("b", "int"), None), ("d", ("b", "double"), None)])],
                    {"name": "f", "ret": ("b", "int"), "params": [("a", ("u", "S"))], "variadic": False}, tag="union/byval"))
+    # two-dimensional array member: reshaping it at constant size is an ABI change that leaves every size and offset alone
+    us.append(Unit([("struct", "S", [("m", ("a", ("a", ("b", "int"), 3), 2), None), ("k", ("b", "int"), None)])],
+                   {"name": "f", "ret": ("b", "int"), "params": [("a", ("p", ("s", "S")))], "variadic": False}, tag="array/2d-member"))
     return us
 
 
@@ -341,7 +344,8 @@ def breaking_edits(u):
         for pos, (m, t, b) in enumerate(ms):
             repl = {("b", "int"): [("b", "long"), ("b", "float")], ("b", "char"): [("b", "short")], ("b", "long"): [("b", "double"), ("b", "int")],
                     ("b", "double"): [("b", "long"), ("b", "float")], ("b", "short"): [("b", "int")], ("p", ("b", "int")): [("p", ("b", "char"))],
-                    ("a", ("b", "int"), 2): [("a", ("b", "int"), 3)]}.get(t, [])
+                    ("a", ("b", "int"), 2): [("a", ("b", "int"), 3)],
+                    ("a", ("a", ("b", "int"), 3), 2): [("a", ("a", ("b", "int"), 2), 3), ("a", ("b", "int"), 6), ("a", ("a", ("b", "int"), 3), 3)]}.get(t, [])
             if b is not None:
                 # a bit-field width change is NOT in the property's list of incompatible edits (libabigail does not
                 # record bit-field widths at all), so it is not part of the breaking catalogue
